@@ -27,6 +27,10 @@ pub struct DwarfInfo {
     pub rows: Vec<Row>,
     pub subprograms: Vec<Subprogram>,
     pub sequences: usize,
+    /// entries below the level of the unit's children (parameters, lexical blocks, variables)
+    pub nested_entries: usize,
+    /// lexical blocks with a range: (name of the enclosing subprogram, low_pc, high_pc as an address)
+    pub blocks: Vec<(String, u64, u64)>,
 }
 
 pub fn read(m: &DModule) -> Result<Option<DwarfInfo>, String> {
@@ -42,7 +46,27 @@ pub fn read(m: &DModule) -> Result<Option<DwarfInfo>, String> {
         info.version = h.version();
         let u = d.unit(h).map_err(|e| e.to_string())?;
         let mut es = u.entries();
-        while let Some((_, e)) = es.next_dfs().map_err(|e| e.to_string())? {
+        let mut depth = 0isize;
+        let mut cur_sub = String::new();
+        while let Some((delta, e)) = es.next_dfs().map_err(|e| e.to_string())? {
+            depth += delta;
+            if depth >= 2 {
+                info.nested_entries += 1;
+            }
+            if e.tag() == gimli::DW_TAG_lexical_block {
+                let lo = match e.attr_value(gimli::DW_AT_low_pc).map_err(|e| e.to_string())? {
+                    Some(gimli::AttributeValue::Addr(a)) => Some(a),
+                    _ => None,
+                };
+                let hi = match e.attr_value(gimli::DW_AT_high_pc).map_err(|e| e.to_string())? {
+                    Some(gimli::AttributeValue::Udata(x)) => lo.map(|l| l.wrapping_add(x)),
+                    Some(gimli::AttributeValue::Addr(x)) => Some(x),
+                    _ => None,
+                };
+                if let (Some(lo), Some(hi)) = (lo, hi) {
+                    info.blocks.push((cur_sub.clone(), lo, hi));
+                }
+            }
             if e.tag() == gimli::DW_TAG_subprogram {
                 let name = match e.attr_value(gimli::DW_AT_name).map_err(|e| e.to_string())? {
                     Some(gimli::AttributeValue::String(s)) => String::from_utf8_lossy(s.slice()).to_string(),
@@ -58,6 +82,7 @@ pub fn read(m: &DModule) -> Result<Option<DwarfInfo>, String> {
                     Some(gimli::AttributeValue::Addr(x)) => (Some(x), false),
                     _ => (None, true),
                 };
+                cur_sub = name.clone();
                 info.subprograms.push(Subprogram { name, low_pc, high_pc, high_is_offset });
             }
         }
